@@ -78,6 +78,9 @@ type Backoffer struct {
 
 	vars *kv.Variables
 	noop bool
+	// keepGoingWhenKilled: the Backoffer serves release requests (rollback, clean-up, commit), which are not interruptible:
+	// a retry after a back-off is not abandoned because the session was killed (the sender's per-request check is unaffected)
+	keepGoingWhenKilled bool
 
 	// errors is a fixed-length array to record the backoff errors,
 	// and it records the last maximum MaxRecordBackoffErrCount errors.
@@ -257,9 +260,11 @@ func (b *Backoffer) BackoffWithCfgAndMaxSleep(cfg *Config, maxSleepMs int, err e
 		atomic.AddInt64(&detail.BackoffCount, 1)
 	}
 
-	err2 := b.CheckKilled()
-	if err2 != nil {
-		return err2
+	if !b.keepGoingWhenKilled {
+		err2 := b.CheckKilled()
+		if err2 != nil {
+			return err2
+		}
 	}
 
 	var startTs interface{}
@@ -298,17 +303,18 @@ func copyMapWithoutRecursive(srcMap map[string]int) map[string]int {
 // try not to modify the referenced content directly.
 func (b *Backoffer) Clone() *Backoffer {
 	return &Backoffer{
-		ctx:            b.ctx,
-		maxSleep:       b.maxSleep,
-		totalSleep:     b.totalSleep,
-		excludedSleep:  b.excludedSleep,
-		vars:           b.vars,
-		errors:         b.errors,
-		errorsNum:      b.errorsNum,
-		configs:        append([]*Config{}, b.configs...),
-		backoffSleepMS: copyMapWithoutRecursive(b.backoffSleepMS),
-		backoffTimes:   copyMapWithoutRecursive(b.backoffTimes),
-		parent:         b.parent,
+		ctx:                 b.ctx,
+		maxSleep:            b.maxSleep,
+		totalSleep:          b.totalSleep,
+		excludedSleep:       b.excludedSleep,
+		vars:                b.vars,
+		keepGoingWhenKilled: b.keepGoingWhenKilled,
+		errors:              b.errors,
+		errorsNum:           b.errorsNum,
+		configs:             append([]*Config{}, b.configs...),
+		backoffSleepMS:      copyMapWithoutRecursive(b.backoffSleepMS),
+		backoffTimes:        copyMapWithoutRecursive(b.backoffTimes),
+		parent:              b.parent,
 	}
 }
 
@@ -319,17 +325,18 @@ func (b *Backoffer) Clone() *Backoffer {
 func (b *Backoffer) Fork() (*Backoffer, context.CancelFunc) {
 	ctx, cancel := context.WithCancel(b.ctx)
 	return &Backoffer{
-		ctx:            ctx,
-		maxSleep:       b.maxSleep,
-		totalSleep:     b.totalSleep,
-		excludedSleep:  b.excludedSleep,
-		errors:         b.errors,
-		errorsNum:      b.errorsNum,
-		configs:        append([]*Config{}, b.configs...),
-		backoffSleepMS: copyMapWithoutRecursive(b.backoffSleepMS),
-		backoffTimes:   copyMapWithoutRecursive(b.backoffTimes),
-		vars:           b.vars,
-		parent:         b,
+		ctx:                 ctx,
+		maxSleep:            b.maxSleep,
+		totalSleep:          b.totalSleep,
+		excludedSleep:       b.excludedSleep,
+		errors:              b.errors,
+		errorsNum:           b.errorsNum,
+		configs:             append([]*Config{}, b.configs...),
+		backoffSleepMS:      copyMapWithoutRecursive(b.backoffSleepMS),
+		backoffTimes:        copyMapWithoutRecursive(b.backoffTimes),
+		vars:                b.vars,
+		keepGoingWhenKilled: b.keepGoingWhenKilled,
+		parent:              b,
 	}, cancel
 }
 
@@ -442,6 +449,12 @@ func (b *Backoffer) longestSleepCfg() (*Config, int) {
 		}
 	}
 	return nil, 0
+}
+
+// KeepGoingWhenKilled marks the Backoffer as serving non-interruptible (release) requests and returns it.
+func (b *Backoffer) KeepGoingWhenKilled() *Backoffer {
+	b.keepGoingWhenKilled = true
+	return b
 }
 
 func (b *Backoffer) CheckKilled() error {
